@@ -104,7 +104,7 @@ func c13Server(srv, cli *memConn, dieAfter int, how int, announceCaps bool, done
 	}
 }
 
-var c13RaceKinds = []string{"noop", "fetch", "list", "login", "append", "search", "enable", "idle", "noop", "fetch"}
+var c13RaceKinds = []string{"noop", "fetch", "list", "login", "login2", "append", "search", "enable", "idle", "noop", "fetch"}
 
 // c13RaceOnce runs one workload; returns "" or a failure description.
 func c13RaceOnce(seed uint64) string {
@@ -153,6 +153,8 @@ func c13RaceOnce(seed uint64) string {
 					cl.List("", "*", nil).Collect()
 				case "login":
 					cl.Login(fmt.Sprintf("user%d\nx", i), "pw").Wait()
+				case "login2":
+					cl.Login(fmt.Sprintf("user%d\nx", i), "pass\nword").Wait()
 				case "append":
 					p := []byte("Subject: x\r\n\r\nbody")
 					cmd := cl.Append("INBOX", int64(len(p)), nil)
